@@ -16,5 +16,12 @@ CHECKS = {
         "next() pushes exactly those children.",
    note="A-FP order embedding only; heapq contract; the run-level counting argument (emitted multiset = language) is composed from these lemmas in DESIGN.md, "
         "and cross-checked by the replay enumerator on small tie-rich grids"),
+ 'C08': dict(level='other', technique=TECH + "; walk completeness by a labelled bounded stand-in",
+   text="Deductive for all inputs: is_parent_around == (some parent has P <= saved M); the restore walk saves only nodes with "
+        "min <= P <= M carrying their own P and without such a parent (R1); restore_base_item/__init__ push exactly the saved nodes, so the "
+        "restored queue satisfies C01's order invariant from max_probability = M; update_save_config stores repr(max_probability). "
+        "Bounded (never counted as proved): completeness / duplicate-freeness of the walk and the tied-group-only repeat clause, every cut point "
+        "and two quit/resume cycles on small tie-rich rulesets.",
+   note="A-FP; float(repr(x))==x; ConfigParser as a map; termination of the recursive walk unverified; uuid refusal in main() not yet under contract"),
 }
 NOT_APPLICABLE = {}
